@@ -165,7 +165,7 @@ def ob_kernel(ctx, cfg, n, name, k, alias=None):
             scalar_add_hook(bc, w, ctx, cfg)
     paths = run(ctx, cfg, n, name, k, A, B, hooks=hooks)
     for pc, st, res in paths:
-        if st != 'ok': return viol('%s/event' % name, 'Goldilocks::%s: path ends in %s: %s' % (name, st, res), replay=dict(kernel=name, event=str(res)))
+        if st != 'ok': return viol('%s/%s' % (name, getattr(res, 'kind', 'event')), 'Goldilocks::%s: path ends in %s: %s' % (name, st, res), replay=dict(kernel=name, event=str(res)))
     r = prove_with(ctx, paths, bc, goalf, pre, tmo)
     mode = 'compositional over ' + ','.join(sorted(set(bc.used)))
     if r[0] == 'sat':
@@ -202,7 +202,7 @@ def ob_kernel(ctx, cfg, n, name, k, alias=None):
         m = r[1]
         Av = [[core.limbval(m, 'a%d_%d' % (j, i)) for i in range(n)] for j in range(3)]; Bv = [core.limbval(m, 'm%d' % t) for t in range(NB[k['kind']])]
         return confirm(ctx, cfg, n, name, k, Av, Bv, mode)
-    if r[0] == 'event': return viol('%s/event' % name, 'path ends in %s: %s' % (r[1], r[2]), replay=dict(kernel=name, event=str(r[2])))
+    if r[0] == 'event': return viol('%s/%s' % (name, getattr(r[2], 'kind', 'event')), 'path ends in %s: %s' % (r[1], r[2]), replay=dict(kernel=name, event=str(r[2])))
     return inconc('%s: %s' % (mode, r[1]))
 
 def native_run(ctx, cfg, n, name, k, Av, Bv):
